@@ -15,12 +15,12 @@ Definition w_create (cs : client_state) (k : cons_state) : xprop := PCreate (B "
 (** D4a - BSC client state with Epoch = 0: Validate looked only at the header, Initialize computes
     height % Epoch.  (Fixed by 73e1317.) *)
 Theorem C15_bsc_epoch_zero_refuted :
-  exists p, xprop_validate_old p = Ok tt /\ forall now, handle_xprop_old now [] p = Panic.
+  exists p, xprop_validate_old p = Ok tt /\ forall now, handle_xprop_old now false [] p = Panic.
 Proof. exists (w_create (CsBSC (w_header 200 137 256 8) 56 0 1000 true) (ConsBSC 5)). split; [reflexivity | intro; reflexivity]. Qed.
 
 (** ... and through UpgradeClient on an existing BSC client. *)
 Theorem C15_bsc_epoch_zero_upgrade_refuted :
-  exists s p, xprop_validate_old p = Ok tt /\ forall now, handle_xprop_old now s p = Panic.
+  exists s p, xprop_validate_old p = Ok tt /\ forall now, handle_xprop_old now false s p = Panic.
 Proof.
   exists [(B "chain-a", {| c_client := Some (CsBSC (w_header 200 137 256 8) 56 200 1000 true); c_cons := []; c_signers := [] |})],
          (PUpgrade (B "t") 1 (B "chain-a") (AnyVal (CsBSC (w_header 400 137 256 8) 56 0 1000 true)) (AnyVal (ConsBSC 5))).
@@ -30,13 +30,13 @@ Qed.
 (** D4b - ETH client state whose height-0 header has a 257-byte bloom: ValidateBasic converted the header
     only for heights above 0, Initialize always does (BytesToBloom panics).  (Fixed by 4b52eb5.) *)
 Theorem C15_eth_bloom_refuted :
-  exists p, xprop_validate_old p = Ok tt /\ forall now, handle_xprop_old now [] p = Panic.
+  exists p, xprop_validate_old p = Ok tt /\ forall now, handle_xprop_old now false [] p = Panic.
 Proof. exists (w_create (CsETH (w_header 0 10 257 0) 1000) (ConsETH 5)). split; [reflexivity | intro; reflexivity]. Qed.
 
 (** D4d - BSC chain id >= 2^63: big.NewInt(int64(ChainId)) is negative, rlp refuses it and
     encodeSigHeader panics.  (Fixed by d773954.) *)
 Theorem C15_bsc_chain_id_refuted :
-  exists p, xprop_validate_old p = Ok tt /\ forall now, handle_xprop_old now [] p = Panic.
+  exists p, xprop_validate_old p = Ok tt /\ forall now, handle_xprop_old now false [] p = Panic.
 Proof. exists (w_create (CsBSC (w_header 200 137 256 8) 9223372036854775808 200 1000 true) (ConsBSC 5)). split; [reflexivity | intro; reflexivity]. Qed.
 
 (** D4c - BSC header with an over-long bloom / nonce above height 0: the VALIDATION itself panicked
@@ -50,7 +50,7 @@ Proof. exists (w_create (CsBSC (w_header 200 137 257 8) 56 200 1000 true) (ConsB
 Theorem C15_witnesses_now_rejected :
   xprop_validate (w_create (CsBSC (w_header 200 137 256 8) 56 0 1000 true) (ConsBSC 5)) = Err /\
   xprop_validate (w_create (CsETH (w_header 0 10 257 0) 1000) (ConsETH 5)) = Err /\
-  (forall now, handle_xprop now [] (w_create (CsBSC (w_header 200 137 256 8) 9223372036854775808 200 1000 true) (ConsBSC 5)) <> Panic).
+  (forall now, handle_xprop now false [] (w_create (CsBSC (w_header 200 137 256 8) 9223372036854775808 200 1000 true) (ConsBSC 5)) <> Panic).
 Proof. repeat split; try reflexivity. intro now. cbn. discriminate. Qed.
 
 (** D5 - rvesting reward parameters (duplicate / bank-invalid denominations) accepted by the pinned
@@ -83,6 +83,31 @@ Proof. exists w_gx. split; reflexivity. Qed.
 (** ... and a validation that checks the relayers (patch /var/tmp/fixes/C15) rejects the witness. *)
 Theorem C15_xibc_genesis_relayer_patched : gx_validate_gen true w_gx = Err.
 Proof. reflexivity. Qed.
+
+(** STILL OPEN at /repo HEAD (finding bsc-upgrade-malformed-signer-key): genesis metadata is validated only
+    for a non-empty key and value; the key "recentSingers" (prefix without "/<height>") under a BSC client is
+    imported, and the next validated UpgradeClient proposal for that client indexes
+    strings.Split(key, "/")[1] in DeleteAllSigner: a panic inside the governance handler.  The state
+    invariant [xstate_wf] of validated_never_panics_xibc_proposal is necessary, and InitGenesis of a
+    VALIDATED genesis can break it. *)
+Definition w_bsc : client_state := CsBSC (w_header 200 137 256 8) 56 200 1000 true.
+Definition w_gx_signer : gx_genesis :=
+  {| gx_clients := [(B "bsc-chain", AnyVal w_bsc)]; gx_consensus := [];
+     gx_metadata := [(B "bsc-chain", [(B "recentSingers", 1)])]; gx_relayers := []; gx_native := B "teleport";
+     gx_acks := []; gx_commitments := []; gx_receipts := []; gx_seqs := [] |}.
+
+Theorem C15_bsc_signer_key_refuted :
+  exists g p, gx_validate g = Ok tt /\ gx_init g = Ok tt /\ xprop_validate p = Ok tt /\
+    forall now, handle_xprop now false (gx_state g) p = Panic.
+Proof.
+  exists w_gx_signer, (PUpgrade (B "t") 1 (B "bsc-chain") (AnyVal w_bsc) (AnyVal (ConsBSC 5))).
+  repeat split; try reflexivity.
+Qed.
+
+(** ... and with the repaired parser the same proposal fails with an ordinary error. *)
+Theorem C15_bsc_signer_key_patched :
+  forall now, handle_xprop now true (gx_state w_gx_signer) (PUpgrade (B "t") 1 (B "bsc-chain") (AnyVal w_bsc) (AnyVal (ConsBSC 5))) = Err.
+Proof. intro; reflexivity. Qed.
 
 (** OPEN by design (finding rvesting-genesis-unfunded-from): ValidateGenesis cannot see the bank genesis;
     InitGenesis panics when the funding account does not hold the initial reward.  The hypothesis [covers]
